@@ -303,7 +303,7 @@ class Generated(Part):
 
 # ------------------------------------------------------------------ MATPOWER
 
-def spec_to_mpc_text(spec, phase_only=None, base=100.0):
+def spec_to_mpc_text(spec, phase_only=None, base=100.0, gen_status=None, close_inline=False):
     """Independent MATPOWER writer. MATPOWER has no end shunts / own bases: those features are not passed in.
     Per-unit numbers of the spec are taken as given on the case base `base`."""
     kv = {b['idx']: b['Vn'] for b in spec['Bus']}
@@ -326,8 +326,10 @@ def spec_to_mpc_text(spec, phase_only=None, base=100.0):
     for d in spec['Slack'] + spec['PV']:
         pg = d.get('p0', 0.0) * base
         st = int(d.get('u', 1))
+        if gen_status is not None and d['bus'] not in slack:
+            st = gen_status          # MATPOWER: GEN_STATUS > 0 = machine in service, <= 0 = out of service
         lines.append(f'  {d["bus"]} {pg:.10g} 0 9900 -9900 {d["v0"]} {base} {st} 9999 0 0 0 0 0 0 0 0 0 0 0 0;')
-        ref['gen'].append(dict(bus=d['bus'], p0=pg / base, v0=d['v0'], u=st, slack=d['bus'] in slack))
+        ref['gen'].append(dict(bus=d['bus'], p0=pg / base, v0=d['v0'], u=1 if st > 0 else 0, slack=d['bus'] in slack))
     lines += ['];', 'mpc.branch = [']
     for k, ln in enumerate(spec['Line']):
         ratio = ln.get('tap', 1.0) if ('tap' in ln or 'phi' in ln) else 0.0
@@ -339,7 +341,11 @@ def spec_to_mpc_text(spec, phase_only=None, base=100.0):
         ref['branch'].append(dict(bus1=ln['bus1'], bus2=ln['bus2'], r=ln['r'], x=ln['x'], b=ln.get('b', 0.0),
                                   tap=(ratio if ratio != 0 else 1.0), phi=math.radians(ang), u=st))
     lines += ['];']
-    return '\n'.join(lines) + '\n', ref
+    text = '\n'.join(lines) + '\n'
+    if close_inline:
+        # legal MATLAB: the closing bracket on the line of the last row
+        text = text.replace(';\n];', ';];')
+    return text, ref
 
 
 class Matpower(Part):
@@ -356,7 +362,8 @@ class Matpower(Part):
     def describe(self, tier):
         return ('triangle networks restricted to what MATPOWER can express (tap, phase, charging, offline branch; 2 x PQ, PV, '
                 'shunt, offline load) incl. a ratio-0 phase shifter: text -> System vs generator data; system2mpc -> mpc2system '
-                'equivalence incl. string bus indices, two loads on a bus, offline load; case base 100 and 50 MVA')
+                'equivalence incl. string bus indices, two loads on a bus, offline load; case base 100 and 50 MVA; generator status codes 2 / -1 / 0; '
+                'closing bracket on the line of the last row')
 
     def cases(self, tier):
         out = []
@@ -369,6 +376,13 @@ class Matpower(Part):
             # a case base other than 100 MVA (per-unit data are on the case base)
             out.append(dict(c, mode='read', phase_only=None, base=50.0))
             out.append(dict(c, mode='export', stridx=False, base=50.0))
+        # MATPOWER status codes other than 0 / 1 (GEN_STATUS > 0 means in service, <= 0 out of service), and the closing
+        # bracket of a matrix on the line of its last row
+        for st in (2, -1, 0):
+            out.append(dict(edges=[(0, 1), (0, 2), (1, 2)], dev=[['d', 1, 'pv']], mode='read', phase_only=None, gen_status=st))
+            out.append(dict(edges=[(0, 1), (0, 2), (1, 2)], dev=[['d', 2, 'pv+pq']], mode='read', phase_only=None, gen_status=st))
+        out.append(dict(edges=[(0, 1), (0, 2), (1, 2)], dev=[['d', 1, 'pv']], mode='read', phase_only=None, close_inline=True))
+        out.append(dict(edges=[(0, 1), (0, 2), (1, 2)], dev=[], mode='read', phase_only=None, close_inline=True))
         out.append(dict(edges=[(0, 1), (0, 2), (1, 2)], dev=[], mode='read', phase_only=1))
         out.append(dict(edges=[(0, 1), (0, 2), (1, 2)], dev=[['d', 1, 'pv']], mode='read', phase_only=2))
         return out
@@ -402,14 +416,18 @@ class Matpower(Part):
             g['Sn'] = 100.0
         try:
             if case['mode'] == 'read':
-                text, ref = spec_to_mpc_text(spec, case.get('phase_only'), base=case.get('base', 100.0))
+                text, ref = spec_to_mpc_text(spec, case.get('phase_only'), base=case.get('base', 100.0),
+                                             gen_status=case.get('gen_status'), close_inline=bool(case.get('close_inline')))
                 path = os.path.join(self.tmp, f'm-{os.getpid()}.m')
                 open(path, 'w').write(text)
                 ss = andes.load(path, no_output=True, default_config=True)
                 os.remove(path)
                 self.compare_read(ss, ref, bad)
+                if len(ref['branch']) != ss.Line.n or len(ref['gen']) != ss.PV.n + ss.Slack.n:
+                    bad('mpc_read:row_count' + (':close_inline' if case.get('close_inline') else ''),
+                        f'{ss.Line.n} branches / {ss.PV.n + ss.Slack.n} generators read, the file has {len(ref["branch"])} / {len(ref["gen"])}')
                 r = results(ss, dynamic=False)
-                if r.get('pf') is not True:
+                if r.get('pf') is not True and case.get('gen_status') is None:
                     bad('matpower_case_does_not_solve', f'power flow of the MATPOWER reading: {r.get("pf")}')
             else:
                 if case.get('stridx'):
